@@ -23,10 +23,18 @@
   `Capacity::next` (lib.rs:595-622) only sizes the replacement buffer (`with_capacity`); it has no effect on any
   observable and is part of `rxBegin`.
 
-  GHOST HISTORY (written by steps, never read by the non-ghost part of a step): accepted, acceptedKept, truncations,
-  calls, firstAttempts, retryCalls, lastReturned, callsPerBatch, fired, firedTake, registered, registeredTake, dropped,
-  obligations, acceptedAt, finalised,
-  waits, batchWaits, tornDown, pendingAtTeardown.
+  GHOST HISTORY (written by steps, never read by the non-ghost part of a step):
+      accepted / acceptedKept / truncations   everything pushed; minus each cleared segment; the cleared segments
+      calls / firstAttempts / retryCalls / lastReturned / callsPerBatch
+                                              every on_batch argument; the first attempts; (remainder returned, argument
+                                              passed) per retry call; the last returned remainder; calls per batch
+      fired / firedTake / registered / registeredTake / dropped
+                                              flush resp. when_empty callbacks that ran / were registered (two name
+                                              spaces); flush callbacks dropped unrun by a receiver teardown
+      obligations / acceptedAt / finalised    per flush watcher: pending ++ in flight resp. everything accepted at its
+                                              registration; items of batches whose last attempt has concluded
+      waits / batchWaits                      every requested wait duration; the retry waits of the current batch
+      tornDown / pendingAtTeardown            the receiver was torn down (not: returned); what was queued then
 
   Items and watcher ids are natural numbers chosen by the environment (the theorems hold for any choice; the
   correspondence harness uses unique ones).   Import-free.
